@@ -343,7 +343,12 @@ def check(w):
         tw = w.clients[w.scn.features['_twin']]
         got = (bytes(tw.rx), tw.eof or tw.rst) if tw.connected else ('never-connected',)
         want = twin_reference(w.scn)
-        if got != want:
+        # the reference is the twin's script run alone in the DEFAULT environment; an execution in which the
+        # environment deviated on the twin itself (its own send / close postponed, its reads withheld) is another
+        # client behaviour, with its own outcome -- not comparable (found by the thorough tier at d=2: a postponed
+        # close lets the twin see the acknowledgement it otherwise never reads)
+        own = [d for d in w.deviations() if tw.name in [str(x) for x in (d[3] if isinstance(d[3], (tuple, list)) else (d[3],))]]
+        if got != want and not own:
             out.append({'symptom': 'later_connection_like_the_adversary_not_treated_as_when_alone', 'features': {},
                         'detail': {'got': (got[0][:120],) + tuple(got[1:]), 'want': (want[0][:120],) + tuple(want[1:])}})
     ref = reference(w.scn.mode)
